@@ -31,6 +31,7 @@ type Cell struct {
 	elems []*Cell
 	typ   types.Type
 	id    int
+	rm    *raceMeta
 }
 
 type Ptr struct{ c *Cell }
@@ -52,6 +53,7 @@ type MapObj struct {
 	keyT    types.Type
 	valT    types.Type
 	id      int
+	rm      *raceMeta
 }
 
 type Iface struct {
